@@ -41,14 +41,14 @@ EXTRA += [
     E("w_add_2", ["fx"], "fx", "return (%s + %s).v;" % (A, A)),
     E("w_mul_3", ["fx"], "fx", "return (%s * 3).v;" % A),
     E("w_add_3", ["fx"], "fx", "return ((%s + %s) + %s).v;" % (A, A, A)),
-    E("w_muldiv_i32", ["fx", "i32"], "fx", "return ((%s * b) / b).v;" % A),
-    E("w_muldiv_i64", ["fx", "i64"], "fx", "return ((%s * b) / b).v;" % A),
 ]
+EXTRA += [E("w_muldiv_" + t, ["fx", t], "fx", "return ((%s * b) / b).v;" % A) for t in lib.ENT.INTS]
+EXTRA += [E("w_muldivr_" + t, [t, "fx"], "fx", "return ((a * %s) / a).v;" % B) for t in lib.ENT.INTS]
 
 
 def run(tier, seed):
     V = common.Verdict("C17", tier, seed)
-    configs = ["K17"] if tier == "quick" else ["K17", "K20"]
+    configs = ["K17", "K20"] if tier == "quick" else ["K17", "K20"]
     a, b, c = sym(0), sym(1), sym(2)
     for cfg in configs:
         try:
@@ -84,32 +84,49 @@ def run(tier, seed):
                               lambda x, o: LO <= 3 * x[0] <= HI and o != ("ret", 3 * x[0]), "a*3 == 3a", site="fixed_multiply_scalar")
             lib.check_regions(V, ctx.run("w_add_3", [FIN]), [("3a finite", [(a.scale(3), LO, HI)], ("lin", a.scale(3)))],
                               lambda x, o: LO <= 3 * x[0] <= HI and o != ("ret", 3 * x[0]), "a+a+a == 3a", site="fixed_addition")
-            for w, dom in (("w_muldiv_i32", ("i", -(1 << 31), (1 << 31) - 1)), ("w_muldiv_i64", ("i", -(1 << 63), (1 << 63) - 1))):
-                r = ctx.run(w, [FIN, dom])
+            for t in lib.ENT.INTS:
+              for w, swap in (("w_muldiv_" + t, False), ("w_muldivr_" + t, True)):
+                dom = lib.ENT.domain(t)
+                r = ctx.run(w, [dom, FIN] if swap else [FIN, dom])
+                N_ = lib.ENT.BITS[t]
+                a_ = sym(1) if swap else sym(0)
+                n_ = sym(0) if swap else sym(1)
                 # (a*n)/n == a whenever n != 0 and a*n is not NaN  <=> on every path not returning NaN the result is a
-                def acc(p):
+                def acc(p, a_=a_, n_=n_, t=t, N_=N_):
                     from .c02 import prod_lin, B63
-                    st = p.state
-                    nlo, nhi = st.rng_lin_int(b)
-                    if nlo == nhi == 0:
-                        return True, ""          # n == 0 is outside the law
-                    PI = prod_lin(st, a, b)
-                    if PI is None:
-                        a0, a1 = st.rng_lin_int(a)
-                        cs = [a0 * nlo, a0 * nhi, a1 * nlo, a1 * nhi]
-                        if min(cs) > M - 1 or max(cs) < -(M - 1):
-                            return True, ""      # a*n is NaN on the whole path: outside the law
-                        return False, "a*n is not computed on this path"
-                    s2 = lib.feasible_with(st, [(PI, -(M - 1), M - 1)])
-                    if s2 is None:
-                        return True, ""          # intermediate a*n is NaN on this path
-                    return lib.holds(s2, p.ret, ("lin", a))
+                    for cons, nl in ([([], n_)] if t[0] == "i" else [([(n_, 0, None)], n_), ([(n_, None, -1)], n_.addc(1 << N_))]):
+                        st = lib.feasible_with(p.state, cons)
+                        if st is None:
+                            continue
+                        nlo, nhi = st.rng_lin_int(nl)
+                        if nlo == nhi == 0:
+                            continue          # n == 0 is outside the law
+                        PI = prod_lin(st, a_, nl)
+                        if PI is None:
+                            a0, a1 = st.rng_lin_int(a_)
+                            cs = [a0 * nlo, a0 * nhi, a1 * nlo, a1 * nhi]
+                            if min(cs) > M - 1 or max(cs) < -(M - 1):
+                                continue      # a*n is NaN on the whole path: outside the law
+                            return False, "a*n is not computed on this path"
+                        s2 = lib.feasible_with(st, [(PI, -(M - 1), M - 1)])
+                        if s2 is None:
+                            continue          # intermediate a*n is NaN on this path
+                        ok, why = lib.holds(s2, p.ret, ("lin", a_))
+                        if not ok:
+                            return False, why
+                    return True, ""
 
-                def bad(x, o):
-                    if x[1] == 0 or abs(x[0] * x[1]) > M - 1:
+                mulrun = ctx.run(("w_mul_%s_f" % t) if swap else ("w_mul_f_" + t), [dom, FIN] if swap else [FIN, dom])
+
+                def bad(x, o, swap=swap, t=t, N_=N_, mulrun=mulrun):
+                    aa, nn = (x[1], x[0]) if swap else (x[0], x[1])
+                    if nn == 0:
                         return False
-                    return o != ("ret", x[0])
-                lib.check_post(V, r, acc, bad, "(a*n)/n == a for n != 0 when a*n is not NaN", site="fixed_division_by_scalar")
+                    inter = mulrun.conc(x)          # the library's own intermediate a*n
+                    if inter[0] != "ret" or abs(inter[1]) == M:
+                        return False
+                    return o != ("ret", aa)
+                lib.check_post(V, r, acc, bad, "(a*n)/n == a for n != 0 when a*n is not NaN [%s]" % t, site="fixed_division_by_scalar")
         except Broken as e:
             V.broke("%s: %s" % (cfg, e))
     expl = ("Laws decided on composed wrappers: commutativity of + and * and a-b == a+(-b) by summary equivalence of the two inlined "
